@@ -33,3 +33,17 @@ Definition manager_request (powf : Q -> Q) (gs : list group) (p : Q) (adjust : b
          then match run_request powf gs p with Some rr => MDone rr | None => MFailed end
          else MOutOfBounds
   end.
+
+(* ---------------------------------------------------------------- result accounting under API faults
+   _set_distributed_power / _parse_result / _distribute_power are modelled in model/Accounting.v (C15's area,
+   imported read-only, qualified).  Here the set-points and the remaining power are the ones the algorithm computed
+   and every inverter has its own set_power outcome. *)
+From Verif Require model.Accounting.
+
+Definition faults_input (p : Q) (rr : request_result) (m : list (Z * list Z)) (out_of : Z -> Accounting.outcome)
+  : Accounting.bat_in :=
+  let d := res_dist (rr_res rr) in
+  Accounting.mkBat p d (res_rem (rr_res rr)) m (map (fun c => out_of (fst c)) d).
+
+Definition faults_result (p : Q) (rr : request_result) (m : list (Z * list Z)) (out_of : Z -> Accounting.outcome)
+  : Accounting.result := Accounting.bat_result (faults_input p rr m out_of).
